@@ -373,12 +373,15 @@ impl<'a> Run<'a> {
             Ok(response) => response,
             Err(_) => return None,
         };
-        if response.content_length() > self.collector.config().max_object_size {
-            warn!(
-                "Trust anchor certificate {uri} exceeds size limit. \
-                 Ignoring."
-            );
-            return None
+        if let Some(max_size) = self.collector.config().max_object_size {
+            // Only compare if there is a limit: `Some(_) > None` is true.
+            if response.content_length() > Some(max_size) {
+                warn!(
+                    "Trust anchor certificate {uri} exceeds size limit. \
+                     Ignoring."
+                );
+                return None
+            }
         }
 
         let mut reader = LimitedDataRead::new(
